@@ -390,21 +390,7 @@ func (s *Server) websitePrepare(ctx context.Context, w http.ResponseWriter, r *h
 		}
 	}
 
-	isAuthenticated, _ := ctx.Value(authentication.IsAuthenticatedContextKey{}).(bool)
-	var accessKeyId *string
-	if isAuthenticated {
-		keyIdStr, _ := ctx.Value(authentication.AccessKeyIdContextKey{}).(string)
-		accessKeyId = &keyIdStr
-	}
-
-	bucketStr := bucketName.String()
-	authRequest := &authorization.Request{
-		Operation:     operation,
-		Authorization: authorization.Authorization{AccessKeyId: accessKeyId},
-		Bucket:        &bucketStr,
-		Key:           keyStr,
-		HttpRequest:   makeAuthorizationHTTPRequest(r),
-	}
+	authRequest, isAuthenticated := makeWebsiteAuthorizationRequest(ctx, r, operation, bucketName, keyStr)
 	allowed, err := s.requestAuthorizer.AuthorizeRequest(ctx, authRequest)
 	if err != nil {
 		writePlainError(w, http.StatusInternalServerError)
@@ -436,6 +422,26 @@ func (s *Server) websitePrepare(ctx context.Context, w http.ResponseWriter, r *h
 	}
 
 	return websiteConfig, objectKey, resolvedKey, true
+}
+
+// makeWebsiteAuthorizationRequest builds the authorization request for a
+// website endpoint access to the given bucket and (optional) object key.
+func makeWebsiteAuthorizationRequest(ctx context.Context, r *http.Request, operation string, bucketName storage.BucketName, key *string) (*authorization.Request, bool) {
+	isAuthenticated, _ := ctx.Value(authentication.IsAuthenticatedContextKey{}).(bool)
+	var accessKeyId *string
+	if isAuthenticated {
+		keyIdStr, _ := ctx.Value(authentication.AccessKeyIdContextKey{}).(string)
+		accessKeyId = &keyIdStr
+	}
+
+	bucketStr := bucketName.String()
+	return &authorization.Request{
+		Operation:     operation,
+		Authorization: authorization.Authorization{AccessKeyId: accessKeyId},
+		Bucket:        &bucketStr,
+		Key:           key,
+		HttpRequest:   makeAuthorizationHTTPRequest(r),
+	}, isAuthenticated
 }
 
 func (s *Server) serveWebsiteGetObject(w http.ResponseWriter, r *http.Request) {
@@ -599,6 +605,17 @@ func (s *Server) serveErrorDocument(w http.ResponseWriter, r *http.Request,
 	ctx := r.Context()
 	errorKey, err := storage.NewObjectKey(*config.ErrorDocumentKey)
 	if err != nil {
+		s.writeHTMLError(w, statusCode, code, message)
+		return
+	}
+
+	// The error document is an object of its own: the request was authorized for
+	// the key it asked for, not for the error document. Only serve the document
+	// when the authorizer also permits reading it; otherwise fall back to the
+	// default HTML error.
+	errorKeyStr := errorKey.String()
+	authRequest, _ := makeWebsiteAuthorizationRequest(ctx, r, authorization.OperationGetObject, bucketName, &errorKeyStr)
+	if allowed, err := s.requestAuthorizer.AuthorizeRequest(ctx, authRequest); err != nil || !allowed {
 		s.writeHTMLError(w, statusCode, code, message)
 		return
 	}
